@@ -1,13 +1,24 @@
 """C09 — create never clobbers, never litters, never touches its input.
 
 Obligations: coq/Properties/C09.v (frame conditions of Create::run for all configurations,
-filesystems and failure positions; write target; output path rule; open finding witnesses).
+filesystems and failure positions; write target; output path rule without a side condition on
+the name; refusal of every torrent name that is not one normal path component).
 Correspondence: the real binary in a fresh sandbox per case, whole-tree snapshots (path, type,
 size, SHA-1, symlink target; mtime excluded) before and after every command, over the finite
 matrix force x dry-run x input shape x output kind x pre-existing state x name x failure cause
 (pairwise-covered + random cells in quick, complete in thorough) against `create_fx` of the
 extracted model; the direct oracle evaluates the frame conditions on the snapshots alone.
-verify / show / link are run on every created torrent (and on garbage) under the same snapshots."""
+verify / show / link are run on every created torrent (and on garbage) under the same snapshots.
+Repaired finding (was open as name-with-separator): `--name` with a path separator used to be
+joined as a path. The two witnesses are the first corpus entries; every non-plain kind of name
+(`a/b`, `/abs/x`, `../x`, `..`, `.`, empty, trailing separator, separator inside a long name) is
+crossed with every output kind and input kind, and the oracle requires refusal (exit 1) with the
+whole sandbox - including the places the old behaviour wrote to - unchanged.
+Dotted names: `--name a.tar`, `a.b.c`, `.hid`, `x.` and inputs whose own name holds a dot (`data.tar`,
+`in.d`) are crossed with every output kind; the documented path is `<name>.torrent` APPENDED to the
+whole name (`a.tar.torrent`), never an extension replacement, and the oracle compares the created
+path with exactly that. The pre-state `stem_sibling` first creates, with the real binary, the torrent
+of a name with the same stem (`a.zip` for `a.tar`) into the same place: two names, two files."""
 import hashlib, itertools, json, os, shutil, subprocess, tempfile
 import lib
 
@@ -21,18 +32,25 @@ MANIFEST = dict(
     ref="DESIGN.md section 5, C09",
     technique="Coq proof over a Gallina model + model/implementation correspondence run on whole-tree snapshots",
     note="Partial: OS effects (a write failing half-way, crashes, races between exists() and open) are outside the statement and the "
-         "model; symlink semantics are the model's kres. Open finding name-with-separator: --name containing `/` is pushed as a path "
-         "(theorems carry `plain nm`, witnesses proved). Interpretation: the output path is judged after symlink resolution; a default "
+         "model; symlink semantics are the model's kres. Repaired finding (fix: reject torrent names that are not a single path "
+         "component): a --name that is empty, `.`, `..` or contains a separator is refused before hashing (c09_bad_name_rejected), "
+         "the path-rule theorems hold for every accepted name. Interpretation: the output path is judged after symlink resolution; a default "
          "target that is itself a directory is treated as a target directory. Trusted: Coq kernel, extraction (ExtrOcamlBasic), "
          "runner/driver.d/createfs.ml, the Python snapshot oracle.")
 
-KEY = "name-with-separator"
 FORCE = (0, 1)
 DRY = (0, 1)
-INPUTS = ("file", "dir", "stdin", "dot", "abs", "unclean", "symlink_follow")
+INPUTS = ("file", "dir", "stdin", "dot", "abs", "unclean", "symlink_follow", "dotfile", "dotdir")
+DOTTED_INPUTS = {"dotfile": b"data.tar", "dotdir": b"in.d"}      # the input's own name holds a dot
 OUTPUTS = ("none", "file", "file_abs", "dir", "dirslash", "dirlink", "stdout", "missing_parent", "parent_file")
-PRE = ("absent", "file", "dir", "dangling", "link_file", "dangling_noparent")
-NAMES = ("none", "plain", "sub", "up", "abs")
+PRE = ("absent", "file", "dir", "dangling", "link_file", "dangling_noparent", "stem_sibling")
+NAMES = ("none", "plain", "sub", "up", "abs", "dotdot", "dot", "empty", "trail", "longmid", "dots3", "tar", "abc", "hid", "xdot")
+# acceptable names with a dot in them: the output is `<name>.torrent` appended to the whole name
+DOTTED_NAMES = {"tar": b"a.tar", "abc": b"a.b.c", "hid": b".hid", "xdot": b"x."}
+DOTTED_CAUSES = ("none", "allowed_small", "lint_small")
+NAME_USING_OUTS = ("none", "dir", "dirslash", "dirlink")      # output kinds in which the name decides the file name
+# names `torrent create` must refuse: not exactly one normal path component
+BAD_NAMES = ("sub", "up", "abs", "dotdot", "dot", "empty", "trail", "longmid")
 CAUSES = ("none", "lint_small", "lint_uneven", "zero", "allowed_small", "bad_glob", "nonutf8_inside", "nonutf8_name", "nonutf8_arg",
           "dangling_follow", "too_large", "stdin_err", "bad_option", "bad_tier", "private", "input_missing",
           "symlink_root", "read_err", "post_show", "post_link", "post_open")
@@ -47,9 +65,23 @@ def valid(c):
     inp, out, pre, name, cause = c["inp"], c["out"], c["pre"], c["name"], c["cause"]
     if cause not in CORE and (pre not in ("absent", "file") or name not in ("none", "plain", "up")):
         return False
+    if name == "dots3" and (pre != "absent" or cause not in ("none", "allowed_small", "lint_small")):
+        return False      # `...` is one normal component (the accepted neighbour of `.` and `..`): success path only
+    dotted = name in DOTTED_NAMES or (name == "none" and inp in DOTTED_INPUTS)
+    if (name in DOTTED_NAMES or inp in DOTTED_INPUTS) and (cause not in DOTTED_CAUSES or pre not in ("absent", "file", "stem_sibling")):
+        return False
+    if inp in DOTTED_INPUTS and name not in ("none", "plain") and name not in DOTTED_NAMES:
+        return False
+    if name in ("abc", "xdot") and inp in ("dot", "abs", "unclean", "symlink_follow"):
+        return False      # the rarer dotted names are crossed with the plain and the dotted input shapes only
+    if name in BAD_NAMES and name != "up" and cause in ("post_open", "bad_glob", "read_err", "stdin_err"):
+        return False      # a refused name other than the historical witness: the causes consulted right after it suffice
+    if pre == "stem_sibling" and not (dotted and out in NAME_USING_OUTS and cause in ("none", "allowed_small") and not c["dry"]
+                                      and not (inp == "stdin" and out == "none")):
+        return False      # a second name with the same stem, created first into the same place: needs a dotted name that is used
     if pre != "absent" and out in ("stdout", "missing_parent", "parent_file"):
         return False
-    if pre != "absent" and name in ("sub", "up", "abs"):
+    if pre != "absent" and name in BAD_NAMES:
         return False
     if inp == "stdin" and cause in ("nonutf8_inside", "nonutf8_name", "nonutf8_arg", "dangling_follow", "input_missing", "symlink_root",
                                     "read_err", "bad_glob"):
@@ -62,7 +94,7 @@ def valid(c):
         return False
     if cause == "nonutf8_name" and inp != "dot":      # the only way to a non-UTF-8 file name with UTF-8 arguments
         return False
-    if cause in ("nonutf8_name", "nonutf8_arg") and name in ("sub", "up", "abs"):
+    if cause in ("nonutf8_name", "nonutf8_arg") and name in BAD_NAMES:
         return False
     if inp == "symlink_follow" and cause in ("read_err", "dangling_follow"):
         return False
@@ -101,10 +133,46 @@ def pairwise(rng, extra):
         chosen.append(best)
         for a, b in itertools.combinations(names, 2):
             need.discard((a, best[a], b, best[b]))
-    # mostly-valid stream: 60% of the random cells have no injected failure
-    good = [c for c in pool if c["cause"] in ("none", "allowed_small")]
+    # mostly-valid stream: 60% of the random cells have no injected failure and an acceptable name
+    good = [c for c in pool if c["cause"] in ("none", "allowed_small") and c["name"] not in BAD_NAMES]
     chosen += rng.sample(good, min(extra * 6 // 10, len(good))) + rng.sample(pool, min(extra * 4 // 10, len(pool)))
     return chosen, len(cells)
+
+
+NAME_OUTS = ("none", "file", "dir", "stdout")
+DOT_OUTS = ("none", "file", "dir", "dirslash", "dirlink", "stdout")
+
+
+def dotted_cells(rng):
+    """every dotted name (and every input whose own name holds a dot, without --name) x output kind x input kind,
+    complete; where the name decides the file name (default location, directory targets) the pre-state is drawn from
+    absent / a file already at the documented path / a sibling with the same stem created first"""
+    out = []
+    combos = [(n, i) for n in DOTTED_NAMES for i in INPUTS] + [("none", i) for i in DOTTED_INPUTS]
+    for (name, inp), o in itertools.product(combos, DOT_OUTS):
+        for _ in range(12):
+            pre = rng.choice(("absent", "absent", "file", "stem_sibling", "stem_sibling")) if o in NAME_USING_OUTS else "absent"
+            c = dict(force=rng.randrange(2), dry=0 if rng.randrange(5) else 1, inp=inp, out=o, pre=pre, name=name,
+                     cause="none" if rng.randrange(5) else rng.choice(DOTTED_CAUSES))
+            if valid(c):
+                out.append(c)
+                break
+    return out
+
+
+def name_cells(rng):
+    """every refused kind of name x output kind (absent, file, directory, `-`) x input kind, complete; force / dry-run
+    drawn per cell; three in four without any other failure cause, the rest with one that is consulted after the name
+    (lint, piece length, hashing, post steps), so that the position of the refusal is exercised too"""
+    out = []
+    for name, o, inp in itertools.product(BAD_NAMES, NAME_OUTS, INPUTS):
+        for _ in range(8):
+            c = dict(force=rng.randrange(2), dry=rng.randrange(2), inp=inp, out=o, pre="absent", name=name,
+                     cause="none" if rng.randrange(4) else rng.choice(("lint_small", "too_large", "allowed_small", "post_show", "post_open")))
+            if valid(c):
+                out.append(c)
+                break
+    return out
 
 
 # ---------------------------------------------------------------- sandbox
@@ -152,13 +220,19 @@ def build(S, c, rng):
     wfile(j(S, b"elsewhere", b"t.bin"), b"linked target\n")
     os.makedirs(j(w, b"d", b"x"))
     os.makedirs(j(w, b"x"))
+    # directories a name joined as a path would lead into (old behaviour): x/, <long>/ next to the input, in the
+    # target directory and at the sandbox root
+    LONG = b"L" * 40
+    for base in (S, w, j(w, b"d")) if c["name"] in ("trail", "longmid", "sub") else ():
+        for sub in (b"x", LONG):
+            os.makedirs(j(base, sub), exist_ok=True)
     os.symlink(j(w, b"d"), j(w, b"dl"))
     inp, cause = c["inp"], c["cause"]
-    iname = b"in\xff" if cause in ("nonutf8_name", "nonutf8_arg") else b"in"
+    iname = b"in\xff" if cause in ("nonutf8_name", "nonutf8_arg") else DOTTED_INPUTS.get(inp, b"in")
     ipath = j(w, iname)
     cwd = w
     stdin = b""
-    if inp == "file":
+    if inp in ("file", "dotfile"):
         wfile(ipath, bytes(rng.randrange(256) for _ in range(rng.choice([0, 1, 100, 20000]))))
     elif inp != "stdin":
         wfile(j(ipath, b"a"), b"hello\n" * rng.randrange(1, 50))
@@ -175,7 +249,7 @@ def build(S, c, rng):
     if cause == "input_missing":
         shutil.rmtree(ipath) if os.path.isdir(ipath) else os.remove(ipath)
     iarg = {"file": iname, "dir": iname, "stdin": b"-", "dot": b".", "abs": ipath, "unclean": b"./d/../" + iname + b"/",
-            "symlink_follow": b"lnk"}[inp]
+            "symlink_follow": b"lnk", "dotfile": iname, "dotdir": iname}[inp]
     if inp == "dot":
         cwd = ipath
     if inp == "symlink_follow" or cause == "symlink_root":
@@ -185,7 +259,9 @@ def build(S, c, rng):
         else:
             os.symlink(ipath, j(w, b"lnk"))
     # the name
-    nm = {"none": None, "plain": b"nm", "sub": b"x/y", "up": b"../esc", "abs": j(S, b"elsewhere", b"abs")}[c["name"]]
+    nm = {"none": None, "plain": b"nm", "sub": b"x/y", "up": b"../esc", "abs": j(S, b"elsewhere", b"abs"),
+          "dotdot": b"..", "dot": b".", "empty": b"", "trail": b"x/", "longmid": LONG + b"/" + b"R" * 40,
+          "dots3": b"...", **DOTTED_NAMES}[c["name"]]
     # where the input is, lexically, and its file name (the default torrent name)
     root_lex = ipath if inp != "symlink_follow" else j(w, b"lnk")
     eff_name = nm if nm is not None else (None if inp == "stdin" else os.path.basename(root_lex))
@@ -202,7 +278,8 @@ def build(S, c, rng):
         target = None if inp == "stdin" or eff_name is None else j(os.path.dirname(root_lex), eff_name + b".torrent")
     else:
         target = os.path.normpath(j(cwd, oarg))
-    plainname = eff_name is not None and b"/" not in eff_name
+    # one normal path component: the only names create may accept (stated here independently of the model)
+    plainname = eff_name is not None and eff_name not in (b"", b".", b"..") and b"/" not in eff_name
     final = target
     if target is not None and out in ("dir", "dirslash", "dirlink") and eff_name is not None:
         final = j(target, eff_name + b".torrent") if plainname else None
@@ -277,7 +354,19 @@ def build(S, c, rng):
         flags += "d"
     if follow:
         flags += "F"
-    return dict(S=S, cwd=cwd, argv=argv, stdin=stdin, stdin_dir=(cause == "stdin_err"), stdout_full=stdout_full, env=env,
+    # stem_sibling: the same command for a name with the same stem (`a.zip` for `a.tar`), to be run first by the real binary;
+    # its documented file is `<sibling>.torrent` in the same directory
+    sibling = None
+    if pre == "stem_sibling" and plainname and final is not None:
+        stem = eff_name[:eff_name.rindex(b".")] if b"." in eff_name[1:] else eff_name
+        sib = stem + (b".zip" if eff_name != stem + b".zip" else b".tgz")
+        sargv, k = list(argv), None
+        if b"--name" in sargv:
+            sargv[sargv.index(b"--name") + 1] = sib
+        else:
+            sargv += [b"--name", sib]
+        sibling = dict(argv=sargv, name=sib, final=j(os.path.dirname(final), sib + b".torrent"))
+    return dict(S=S, cwd=cwd, argv=argv, stdin=stdin, stdin_dir=(cause == "stdin_err"), stdout_full=stdout_full, env=env, sibling=sibling,
                 iarg=iarg, oarg=oarg, name=nm, eff_name=eff_name, plain=plainname, target=target, pl=pl, flags=flags or "-",
                 input_root=(None if inp == "stdin" else os.path.realpath(root_lex) if os.path.lexists(root_lex) else root_lex))
 
@@ -396,18 +485,40 @@ def _one_case(exe, tmp, cell, seed, timeout):
     try:
         r = build(S, cell, rng)
         Sb = r["S"]
+        sib, sib_state = r["sibling"], None
+        if sib:
+            # first create of the pair: a name with the same stem into the same place (real binary; judged below)
+            rc0, _, err0 = run_bin(exe, sib["argv"], r["cwd"], r["stdin"], None, False, r["env"], timeout=timeout)
+            sib_state = (rc0, os.path.isfile(sib["final"]) and not os.path.islink(sib["final"])
+                         and is_torrent(open(sib["final"], "rb").read(), sib["name"]))
         before = snapshot(S)
         rc, out, err = run_bin(exe, r["argv"], r["cwd"], r["stdin"], os.path.join(Sb, b"w", b"d") if r["stdin_dir"] else None,
                                r["stdout_full"], r["env"], timeout=timeout)
         after = snapshot(S)
         d = diff(before, after)
-        res = dict(cell=cell, rc=rc, stderr=err.decode("utf-8", "replace")[-400:], delta=d, problems=[], known=[], ro=[],
-                   timed_out=(rc == 124))
-        res["reproduce"] = ("sandbox built by tools/props/c09.py build() for this cell; cd %s && imdl %s%s" % (
-            desc(os.path.relpath(r["cwd"], Sb)), " ".join(repr(desc(a)) for a in r["argv"]),
+        res = dict(cell=cell, rc=rc, stderr=err.decode("utf-8", "replace")[-400:], delta=d, problems=[], ro=[],
+                   timed_out=(rc == 124 or (sib_state is not None and sib_state[0] == 124)))
+        res["reproduce"] = ("sandbox built by tools/props/c09.py build() for this cell; cd %s && %simdl %s%s" % (
+            desc(os.path.relpath(r["cwd"], Sb)),
+            "imdl %s && " % " ".join(repr(desc(a)) for a in sib["argv"]) if sib else "",
+            " ".join(repr(desc(a)) for a in r["argv"]),
             " >/dev/full" if r["stdout_full"] else "") + (" <w/d (directory as stdin)" if r["stdin_dir"] else ""))
         ok = rc == 0
         P = res["problems"].append
+        # ---- two names sharing a stem, written to the same place, give two files: `<name>.torrent` is appended to the
+        #      whole name, an extension is never replaced
+        if sib:
+            srel = desc(os.path.relpath(sib["final"], Sb))
+            if sib_state[0] != 0 or not sib_state[1]:
+                P("stem pair: the first create (`--name %s`) ended with exit %d and %s its metainfo at the documented path %r "
+                  "(`<name>.torrent` appended to the whole name)" % (desc(sib["name"]), sib_state[0],
+                                                                  "left" if sib_state[1] else "did not leave", srel))
+            if ok:
+                both = [f for f in (sib["final"], os.path.join(os.path.dirname(sib["final"]), r["eff_name"] + b".torrent"))
+                        if os.path.isfile(f) and is_torrent(open(f, "rb").read())]
+                if len(both) != 2:
+                    P("stem pair: `%s` and `%s` created into the same directory must give two files (%r and %r); found %d of them"
+                      % (desc(sib["name"]), desc(r["eff_name"]), srel, desc(r["eff_name"] + b".torrent"), len(both)))
         # ---- direct oracle: the property's frame conditions on the snapshots
         # what was at the documented target before (following symlinks)?
         tgt = r["target"]
@@ -415,8 +526,8 @@ def _one_case(exe, tmp, cell, seed, timeout):
         present_file = False
         if tgt is not None and r["eff_name"] is not None:
             t = tgt
-            if not r["plain"] and (cell["out"] == "none" or os.path.isdir(t)):
-                t = None              # the rule names a file `<name>.torrent` directly in a directory: impossible with `/` in the name
+            if not r["plain"]:
+                t = None              # a name that is not one normal path component has no documented output path: it must be refused
             elif os.path.isdir(t):    # a target that is a directory receives <name>.torrent
                 t = os.path.join(t, r["eff_name"] + b".torrent")
             if t is not None:
@@ -431,6 +542,16 @@ def _one_case(exe, tmp, cell, seed, timeout):
                     relt = os.path.relpath(doc, Sb)
                 present_file = relt in before and before[relt][0] == "F"
         reldoc = os.path.relpath(doc, Sb) if doc is not None else None
+        # ---- the torrent name must be exactly one normal path component; anything else is refused with the whole
+        #      sandbox (the input's directory, the target directory, the places a joined path would lead to) unchanged
+        if r["eff_name"] is not None and not r["plain"]:
+            if ok:
+                P("bad name: `--name %s` is not a single path component (empty, `.`, `..` or contains a separator), yet the "
+                  "command succeeded; tree delta %r" % (desc(r["name"]), desc(d)))
+            elif rc != 1:
+                P("bad name: `--name %s` must be refused with exit status 1, the command ended with %d" % (desc(r["name"]), rc))
+            if d:
+                P("bad name: `--name %s` must be refused with nothing written anywhere; the tree changed: %r" % (desc(r["name"]), desc(d)))
         if not cell["force"]:
             for p, (a, b) in d.items():
                 if a is not None:
@@ -443,7 +564,7 @@ def _one_case(exe, tmp, cell, seed, timeout):
             P("litter: the command failed (exit %d, cause %s) and left the tree changed: %r" % (rc, cell["cause"], desc(d)))
         if not ok and cell["cause"] in POST:
             extra = [p for p in d if p != reldoc]
-            if extra and r["plain"]:
+            if extra:
                 P("litter: failure after the write changed something other than the output file: %r" % desc(extra))
         torrent_ok = {}
         for p, (a, b) in d.items():
@@ -465,13 +586,8 @@ def _one_case(exe, tmp, cell, seed, timeout):
                     if a is not None and a[0] != "F":
                         P("success replaced a non-file entry %r (%r)" % (desc(p), a))
                     if p != reldoc:
-                        msg = ("the new file is at %r, the documented output path is %s" % (
-                            desc(p), repr(desc(reldoc)) if reldoc else "`<name>.torrent` directly inside %r, which no path satisfies "
-                            "for a name containing `/`" % desc(os.path.relpath(os.path.dirname(r["input_root"]) if cell["out"] == "none" else tgt, Sb))))
-                        if r["plain"]:
-                            P("output path: " + msg)
-                        else:
-                            res["known"].append("--name %r is joined as a path: %s" % (desc(r["name"]), msg))
+                        P("output path: the new file is at %r, the documented output path is %s" % (
+                            desc(p), repr(desc(reldoc)) if reldoc else "none (the name %r is not a single path component)" % desc(r["eff_name"])))
         if r["input_root"] is not None:
             ir = os.path.relpath(r["input_root"], Sb)
             for p in d:
@@ -541,6 +657,7 @@ def run(ctx):
         cells = list(all_cells()); total = len(cells); exhaustive = True
     else:
         cells, total = pairwise(ctx.rng, 450); exhaustive = False
+        cells = name_cells(ctx.rng) + dotted_cells(ctx.rng) + cells
     # regression corpus first (hand-written edge cells and witnesses of past findings)
     cdir = os.path.join(lib.VERIF, "tools", "corpus", "C09")
     corpus = [json.load(open(os.path.join(cdir, f)))["case"]["cell"] for f in sorted(os.listdir(cdir))] if os.path.isdir(cdir) else []
@@ -588,8 +705,6 @@ def run(ctx):
             ctx.violation("oracle-failure", "create %s: %s" % (json.dumps(cell, sort_keys=True), r["problems"][0]),
                           dict(case, oracle=r["problems"]))
         else:
-            if r["known"]:
-                ctx.violation("oracle-failure", r["known"][0], dict(case, oracle=r["known"]), key=KEY)
             if mobs != r["impl_obs"]:
                 ctx.cov["disagreements_checked"] += 1
                 ctx.violation("model-impl-disagreement",
@@ -611,8 +726,11 @@ def finish(ctx, exhaustive, total):
         "directory; the output path is never chosen inside the input content",
     ]
     return ctx.finish(
-        rule="cells of the matrix force x dry-run x input shape(7) x output kind(9) x pre-existing state(6) x name(5) x failure "
-             "cause(21), pruned of impossible combinations and, for the non-core failure causes, of the rarer pre-states and names (%d cells): quick = greedy pairwise cover + 450 seeded random cells (60%% without injected failure), "
+        rule="cells of the matrix force x dry-run x input shape(9, two with a dot in the input's own name) x output kind(9) x pre-existing state(7, incl. a same-stem sibling created first) x name(15: none, plain, `...`, the dotted a.tar, a.b.c, .hid, x., and "
+             "the eight refused kinds a/b, ../x, /abs/x, `..`, `.`, empty, trailing separator, separator inside a long name) x failure "
+             "cause(21), pruned of impossible combinations and, for the non-core failure causes, of the rarer pre-states and names (%d cells): quick = the two witnesses of the repaired --name finding, then every refused name kind x output kind "
+             "(absent, file, directory, `-`) x input kind (224 cells), every dotted name (a.tar, a.b.c, .hid, x., and the dotted input names data.tar, in.d without --name) x output kind(6) x input kind (a.tar, .hid: all nine; a.b.c, x.: file, dir, stdin and the two dotted ones) "
+             "with the pre-state drawn from absent / file at the documented path / same-stem sibling created first (180 cells), a greedy pairwise cover of all factors and 450 seeded random cells (60%% without injected failure and with an acceptable name), "
              "thorough = every cell; each cell is one fresh sandbox, one create run and (for every created torrent, and on garbage for one cell in eight) three read-only runs under whole-tree "
              "snapshots; a case is distinct by its cell" % total,
         trusted_base=["Coq 8.16.1 kernel (coqc), vm_compute for the concrete instances", "extraction with ExtrOcamlBasic + runner/driver.d/createfs.ml",
@@ -635,5 +753,5 @@ def replay(ctx, path):
     print("run   :", r["reproduce"])
     print("impl  : exit %d; %s" % (r["rc"], r["impl_obs"]))
     print("model :", ctx.model([r["model_req"]])[0])
-    print("oracle:", r["problems"] or r["known"] or "frame conditions hold")
+    print("oracle:", r["problems"] or "frame conditions hold")
     return 0
